@@ -131,6 +131,14 @@ theorem thetaOf_of_root (T ϑ : ℝ) (hT : T - nr4_9 ≠ 0)
 theorem nr4_8_neg : (nr4_8 : ℝ) < 0 := by unfold nr4_8; rw [tf_lit]; norm_num
 theorem pstar4_pos : (0 : ℝ) < pstar4 := by unfold pstar4; rw [tf_lit]; norm_num
 
+/-- the last square root of `tsat` never fails: its argument is `(ϑ − n₁₀)² − 4 n₉` with `n₉ < 0` -/
+theorem tsDisc2_nonneg (ϑ : ℝ) : 0 ≤ tsDisc2 ϑ := by
+  have h := nr4_8_neg
+  have e : tsDisc2 ϑ = (ϑ - nr4_9) ^ 2 + (-4) * nr4_8 := by unfold tsDisc2; ring
+  rw [e]
+  have := sq_nonneg (ϑ - nr4_9)
+  nlinarith
+
 theorem T_lt_nr4_9 (t : ℝ) (h1 : t ≤ tcritical) : t + tc_k - nr4_9 < 0 := by
   unfold tcritical at h1
   unfold tc_k nr4_9
@@ -210,7 +218,6 @@ theorem sat_tsat_inverse (t : ℝ) (h0 : 0 ≤ t) (h1 : t ≤ tcritical)
 theorem tsat_sat_inverse (p : ℝ) (h0 : pmin ≤ p) (h1 : p ≤ pcritical)
     (hΔ : 0 ≤ tsDisc (Real.sqrt (Real.sqrt (p / pstar4)) * Real.sqrt (Real.sqrt (p / pstar4))) (Real.sqrt (Real.sqrt (p / pstar4))))
     (hD : tsDen (Real.sqrt (Real.sqrt (p / pstar4)) * Real.sqrt (Real.sqrt (p / pstar4))) (Real.sqrt (Real.sqrt (p / pstar4))) ≠ 0)
-    (h2 : 0 ≤ tsDisc2 (tsTheta (Real.sqrt (Real.sqrt (p / pstar4)) * Real.sqrt (Real.sqrt (p / pstar4))) (Real.sqrt (Real.sqrt (p / pstar4)))))
     (hbr : 2 * satA (tsTheta (Real.sqrt (Real.sqrt (p / pstar4)) * Real.sqrt (Real.sqrt (p / pstar4))) (Real.sqrt (Real.sqrt (p / pstar4))))
         * Real.sqrt (Real.sqrt (p / pstar4))
       + satB (tsTheta (Real.sqrt (Real.sqrt (p / pstar4)) * Real.sqrt (Real.sqrt (p / pstar4))) (Real.sqrt (Real.sqrt (p / pstar4)))) ≤ 0)
@@ -234,7 +241,7 @@ theorem tsat_sat_inverse (p : ℝ) (h0 : pmin ≤ p) (h1 : p ≤ pcritical)
   set T := tsT ϑ with hT
   have hTT : T - tc_k + tc_k = T := by ring
   have hw : T - nr4_9 < 0 := by have := T_lt_nr4_9 (T - tc_k) hg.2; rwa [hTT] at this
-  have hroot := tsT_root ϑ h2
+  have hroot := tsT_root ϑ (tsDisc2_nonneg ϑ)
   rw [← hT] at hroot
   have hth : ϑ = thetaOf T := thetaOf_of_root T ϑ (ne_of_lt hw) hroot
   rw [sat_eq _ hg.1 hg.2, hTT, ← hth]
